@@ -187,7 +187,7 @@ func init() {
 			return 100
 		},
 		RequiredFeatures: func(tier string) []string {
-			return []string{"side-pot", "split-or-multi-winner", "bust", "mid-hand-topup", "departure", "batch-leave", "batch-update", "known:dealt-in-leave"}
+			return []string{"side-pot", "split-or-multi-winner", "bust", "mid-hand-topup", "departure", "batch-leave", "batch-update", "released-while-hand-runs", "known:dealt-in-leave"}
 		},
 		CaseTimeout: 180e9,
 		Run:         c01Run,
@@ -208,6 +208,26 @@ func c01Run(c *h.Ctx) {
 		po.Gen.ShortStacks = true
 	}
 	mon := c01Mon()
+	if c.Case%8 == 3 {
+		// the engine is released while the last hand runs (the competition is over): the hand is still played
+		// out and must be settled like any other completed hand
+		released := false
+		relHand := 2 + c.R.Intn(3)
+		mon.BeforeAct = func(p *Play, e *h.Ev, gp int, pid string) bool {
+			if !released && p.HandNo >= relHand {
+				released = true
+				p.SS.S.TE.ReleaseTable()
+				c.Feature("released-while-hand-runs")
+			}
+			return true
+		}
+		mon.OnEvent = func(p *Play, e *h.Ev) {
+			// a released engine neither pauses nor sets the next hand up: the run ends with this hand's settlement
+			if released && e.Kind == h.EvState && e.Name == "GameSettled" {
+				p.StopNow = true
+			}
+		}
+	}
 	p := RunPlay(c, po, mon)
 	if p == nil {
 		return
@@ -221,6 +241,15 @@ func c01Run(c *h.Ctx) {
 		}
 	}
 	if p.Stalled && !c.Failed() {
+		// a hand that ran to its end (the hand engine produced a result) but whose result never reached the bankrolls
+		if t := p.SS.S.Table(); t.State.GameState != nil && t.State.GameState.Status.CurrentEvent == "GameClosed" && t.State.GameState.Result != nil {
+			for _, pr := range t.State.GameState.Result.Players {
+				if pr.Changed != 0 {
+					c.Violate("C01/completed-hand-never-settled", fmt.Sprintf("hand %d is complete (hand engine result: entry %d changed by %+d ...) but the table never settled it: status %s, bankrolls unchanged", p.HandNo, pr.Idx, pr.Changed, t.State.Status), p.witness())
+					return
+				}
+			}
+		}
 		c.InconclusiveW(fmt.Sprintf("foreign: hand %d did not settle within the watchdog (liveness is C08/C11's subject)", p.HandNo), p.witness())
 		return
 	}
